@@ -921,12 +921,11 @@ def _walk(p: Path, prefix: T.List[Event], hyp: Hyp, observer: T.Optional[Observe
                 if isinstance(t, ast.Name):
                     v2 = sub(val)
                     unbind([t])
-                    if not _bindable(val) and isinstance(v2, ast.Call) and INLINER is not None:
-                        inl = INLINER(v2)                 # x = helper(..) with an expression-shaped helper
-                        if inl is not None and _bindable(inl):
-                            binds[t.id] = inl
-                            opaque.discard(t.id)
-                    if _bindable(val):
+                    inl = INLINER(v2) if isinstance(v2, ast.Call) and INLINER is not None else None
+                    if inl is not None and _bindable(inl):
+                        binds[t.id] = inl                 # x = helper(..) with an expression-shaped helper: its expression
+                        opaque.discard(t.id)
+                    elif _bindable(val):
                         binds[t.id] = v2
                         opaque.discard(t.id)
                 elif isinstance(t, (ast.Tuple, ast.List)):
@@ -981,5 +980,7 @@ def _bindable(v: ast.AST) -> bool:
             f = n.func
             nm = f.attr if isinstance(f, ast.Attribute) else (f.id if isinstance(f, ast.Name) else '')
             if nm not in PURE and not (nm[:1].isupper()) and nm != 'cls':
+                if INLINER is not None and INLINER(n) is not None:
+                    continue              # an expression-shaped helper of the class / module
                 return False
     return True
